@@ -956,6 +956,22 @@ def c09(ctx):
                 continue
             if (f[1] == "8") != (spm[d] == "sS 1"):
                 ctx.S("address on a reserved domain not classified 'special' (or a non-reserved one classified so)", op="E %d 1 %s" % (m, hx(b"a@" + d)), input=repr(d), impl=cl, spec=spm[d])
+    # (added) mode 6531: internationalised labels LEFT of the last two change nothing - the A-form ends in the same two labels
+    ul = []
+    for u in ("почта", "例え", "ελ", "münchen", "a", "xn--80a1acny"):
+        for tail in (b"example.com", b"EXAMPLE.org", b"example.net", b"x.test", b"test", b"a.localhost", b"b.invalid", b"c.onion", b"d.example", b"example.co", b"examples.com",
+                     b"counterexample.com", b"b.com", b"x.tests", b"example.comm", b"xexample.org"):
+            ul += [u.encode() + b"." + tail, u.encode() + b"." + u.encode() + b"." + tail, b"a." + u.encode() + b".b." + tail]
+    ul = list(dict.fromkeys(ul))
+    usp = ctx.spec(["sS %s" % hx(b".".join([b"x" if any(c >= 0x80 for c in lab) else lab for lab in d.split(b".")])) for d in ul])
+    cu = ctx.K("special-ulabel6531", "default", ["E 6531 1 %s" % hx(b"a@" + d) for d in ul], nontrivial=lambda op, ln: True)
+    for d, cl, sl in zip(ul, cu, usp):
+        f = fields(cl)
+        if "FAULT" in cl or f[1] == "-2":
+            continue
+        if (f[1] == "8") != (sl == "sS 1"):
+            ctx.S("mode 6531: a domain with internationalised labels in front is classified special / not special against the reserved-name rules (they are about its last two labels)",
+                  op="E 6531 1 %s" % hx(b"a@" + d), domain=d.decode(), impl=cl, spec=sl)
     # (added) 'special' is said of the DOMAIN only: whatever the local part is (every byte value inside a quoted string, bare, escaped), class 8
     # comes out exactly for reserved domains - with TLD checking on, and never with it off
     lps = [b'"a' + bytes([b_]) + b'b"' for b_ in range(1, 256) if b_ != 0x40] + [b"a" + bytes([b_]) + b"b" for b_ in range(1, 256) if b_ != 0x40] + \
@@ -1013,6 +1029,14 @@ def c12(ctx):
             plain.append(l + b"@b.com"); plain.append(l + b"@[1.2.3.4]")
     for w in gen.words([b"a", b".", b"1"], 6, 1):
         plain.append(w + b"@b.com")
+    # domains with TWO defects, the size defect to the right of another one: the code is that of the first defect from the left in every mode
+    for n in (64, 65, 100, 200):
+        big = b"a" * n
+        for pre in (b"sub_domain.", b"mail...", b".", b"b!.", b"a b.", b"-x.", b"x-.", b"1.2.", b"ok.", b"a..b."):
+            for tl in (b".com", b"", b".", b".zz"):
+                plain.append(b"user@" + pre + big + tl)
+    for pre in (b"a_b.", b"..", b"a!.", b"x..y.", b"-."):
+        plain += [b"user@" + pre + gen.long_host(260), b"user@" + pre + gen.long_host(254), b"user@" + pre + gen.long_host(250)]
     plain = list(dict.fromkeys(plain))
     for t in (0, 1):
         res = {}
@@ -1607,6 +1631,11 @@ def c17(ctx):
             [bytes([c]) for c in rfc20] + ["é".encode() + bytes([c]) for c in rfc20] + [b'"\\' + bytes([c]) + b'"' for c in rfc20]
     # quoted strings over backslash, blanks, quote and a letter, exhaustively: quoted-pairs next to (folding) white space
     locs += [b'"' + w + b'"' for w in gen.words([b"\\", b" ", b"\t", b"\r", b"\n", b'"', b"b"], 4 if ctx.tier == "quick" else 5, 1)]
+    # every ASCII byte next to a blank inside quotes (what counts as white space there is SP / HTAB / CR / LF and nothing else)
+    for c in range(1, 128):
+        if c not in (0x22, 0x5c):
+            x = bytes([c])
+            locs += [b'"a ' + x + b'"', b'"' + x + b' a"', b'" ' + x + b' "', b'"a\t' + x + b'b"', b'"' + x + b'"', b'"a ' + x + b' b"', b'"\r\n ' + x + b'"']
     locs = list(dict.fromkeys(locs))
     doms = [d for d in dict.fromkeys(gen.domain_strings("quick", ctx.rng)[:: (6 if ctx.tier == "quick" else 1)]) if 0 not in d]
     mails = [e for e in dict.fromkeys(gen.email_strings("quick", ctx.rng)[:: (5 if ctx.tier == "quick" else 1)]) if 0 not in e]
